@@ -24,7 +24,7 @@ ReadBack == \A c \in Charts : \A s \in {1, 4} :
               /\ ParseCharts(r.ps) = <<c>>
               /\ r.next = s + Slots(c)
 \* any_of over searches is their disjunction, & their conjunction
-AnyOfIsOr == \A a \in Groups1 \cup SomeLeaves, b \in SomeLeaves, c \in SomeLeaves :
+AnyOfIsOr == \A a \in SomeGroups1 \cup SomeLeaves, b \in SomeLeaves, c \in {Crit("f1", "anywords", <<"a">>, FALSE, FALSE), Crit("f2", "anywords", <<"b">>, TRUE, FALSE)} :
                NoEmptyGroup(a) => \A bug \in Bugs :
                  ChartsHold(AnyOf(<<And(ChartQ(a), ChartQ(b)), ChartQ(c)>>).charts, bug)
                    = ((ChartHolds(a, bug) /\ ChartHolds(b, bug)) \/ ChartHolds(c, bug))
